@@ -301,7 +301,14 @@ def run_shard(shard, tier, seed, acc):
                     'example': spaces.fstr(('A', forms[200]))})
         return
     if kind == 'C':
-        forms = spaces.path_by_size(0) + spaces.path_by_size(1)
+        P_, NP_ = spaces.P, ('not', spaces.P)
+        # + next-time obligations nested under another temporal operator (several tableau atoms per state
+        # with different successors) on these branching three-state structures
+        forms = spaces.path_by_size(0) + spaces.path_by_size(1) + [
+            ('X', ('X', P_)), ('X', ('X', ('X', P_))), ('X', ('X', NP_)), ('G', ('X', ('X', P_))),
+            ('F', ('X', ('X', P_))), ('X', ('U', NP_, ('X', P_))), ('U', ('X', P_), ('X', ('X', NP_))),
+            ('X', ('R', P_, ('X', NP_))), ('X', ('F', ('X', P_))), ('or', ('X', ('X', P_)), ('X', NP_)),
+            ('G', ('F', P_)), ('F', ('G', NP_)), ('R', NP_, ('X', P_))]
         for k in _k3_one_atom()[shard[1]:shard[2]]:
             if deadline_passed():
                 acc.capped()
